@@ -42,7 +42,8 @@ def gen(rng, tier):
     if rng.random() < 0.4:
         # a history: earlier transforms whose RESULT (with its generated names) is the argument of the judged call
         for _ in range(rng.randint(1, 2)):
-            pre.append([rng.choice(("limit_fanin", "limit_fanin", "limit_fanout")), rng.randint(2, 6)])
+            pre.append([rng.choice(("limit_fanin", "limit_fanin", "limit_fanout") + (("insert_registers",) if op == "insert_registers" else ())),
+                        rng.randint(2, 6)])
     return {"net": net, "op": op, "k": k, "stages": rng.randint(1, 4), "pre": pre, "peer": {"seed": rng.getrandbits(32)}}
 
 
@@ -71,6 +72,8 @@ def run(case, ctx):
         if not ref.is_lint_clean(net) or ref.is_cyclic(net):
             raise Skip("pre-steps left an ill-formed circuit (reported by their own runs)")
         free = ref.free_nodes(net)
+        if len(free) > 12:
+            raise Skip("too many startpoints after the earlier transforms")
     before = ref.snapshot(c)
     nodes = net["nodes"]
     fo = ref.fanout_map(net)
@@ -96,8 +99,8 @@ def run(case, ctx):
         inc = round(md / (case["stages"] + 1))
         if inc < 1:
             raise Skip("no stage boundary")
-        if any(n.startswith("ff_") for n in nodes) or any(i.startswith("ff_") for i in net["bbs"]):
-            raise Skip("name clash with defaults")
+        if any(i.startswith("ff_") for i in net["bbs"]):
+            ctx.probe("insert_registers:already_pipelined")     # flops from an earlier insert_registers call stay opaque
         if "clk" in nodes:
             ctx.probe("insert_registers:clk_exists")
             sig["clk_exists"] = nodes["clk"][0]
